@@ -18,7 +18,8 @@ Lemma fold_sound k x y n : fold_bin k x y = FNum n -> refines (Bin k (Const x) (
 Proof.
   intros H rho v. cbn [den]. destruct (numR x) as [rx|] eqn:Ex; cbn [bind2]; [|discriminate].
   destruct (numR y) as [ry|] eqn:Ey; cbn [bind2]; [|discriminate].
-  destruct k; cbn [fold_bin binop] in *.
+  assert (H' : fold_fin k x y = FNum n) by (destruct x, y; try exact H; rewrite numR_nan in *; discriminate).
+  clear H. rename H' into H. destruct k; cbn [fold_fin binop] in *.
   - (* = *) destruct (num_eqb x y) eqn:E; [|discriminate]. inversion H; subst n. destruct (Req_EM_T rx ry); [|intros Q; discriminate Q]. intros [= <-]. exact Ex.
   - inversion H; subst n. intros [= <-]. now apply numR_nadd.
   - inversion H; subst n. intros [= <-]. now apply numR_nsub.
